@@ -26,21 +26,22 @@ import (
 // ---------------------------------------------------------------------------------------------
 
 type ccStats struct {
-	Bursts      int            `json:"membership_bursts"`
-	Calls       int            `json:"concurrent_calls"`
-	Succeeded   int            `json:"calls_succeeded"`
-	ErrKinds    map[string]int `json:"err_kinds"`
-	Goroutines  map[string]int `json:"goroutines_per_burst"`
-	ActBursts   int            `json:"action_bursts"`
-	ActAccepted int            `json:"actions_accepted_in_bursts"`
-	SMBursts    int            `json:"seat_manager_bursts"`
-	ByLeaves    int            `json:"bystander_departures_during_action_bursts"`
-	TopupBursts int            `json:"top_up_bursts_racing_an_open"`
-	Anomalies   int            `json:"anomalies"`
-	Crashes     int            `json:"child_crashes"`
-	Histories   int            `json:"histories"`
-	Distinct    int            `json:"distinct_histories"`
-	Samples     []string       `json:"samples"`
+	Bursts           int            `json:"membership_bursts"`
+	Calls            int            `json:"concurrent_calls"`
+	Succeeded        int            `json:"calls_succeeded"`
+	ErrKinds         map[string]int `json:"err_kinds"`
+	Goroutines       map[string]int `json:"goroutines_per_burst"`
+	ActBursts        int            `json:"action_bursts"`
+	ActAccepted      int            `json:"actions_accepted_in_bursts"`
+	SMBursts         int            `json:"seat_manager_bursts"`
+	ByLeaves         int            `json:"bystander_departures_during_action_bursts"`
+	TopupBursts      int            `json:"top_up_bursts_racing_an_open"`
+	OpenVsMembership int            `json:"membership_calls_queued_around_an_open"`
+	Anomalies        int            `json:"anomalies"`
+	Crashes          int            `json:"child_crashes"`
+	Histories        int            `json:"histories"`
+	Distinct         int            `json:"distinct_histories"`
+	Samples          []string       `json:"samples"`
 }
 
 type ccOp struct {
@@ -824,6 +825,139 @@ func topupBurst(r *rand.Rand, st *ccStats, hid int) string {
 	return w.String()
 }
 
+// openVsMembership: a membership call is queued on the engine lock behind another one when the open-game gate fires, so
+// that the hand is opened with calls waiting in front of it and behind it. Whatever the order in which they get the lock,
+// the outcome is that of a one-at-a-time order: a reservation that returned nil is on the table afterwards (and only
+// once), a departure that returned nil is not, and table and seat manager agree on who sits where.
+// The listener of the first call (notified with the engine lock held) starts the second call, lets it queue, makes the
+// gate fire, and only then returns.
+func openVsMembership(r *rand.Rand, st *ccStats, hid int) string {
+	var w strings.Builder
+	line := func(format string, a ...interface{}) { fmt.Fprintf(&w, format+"\n", a...) }
+	n := 2 + r.Intn(3)
+	setting := pokertable.TableSetting{
+		TableID: fmt.Sprintf("v%d", hid),
+		Meta: pokertable.TableMeta{CompetitionID: "c", Rule: pokertable.CompetitionRule_Default, Mode: pokertable.CompetitionMode_CT, MaxDuration: 1000000,
+			TableMaxSeatCount: 9, TableMinPlayerCount: 2, MinChipUnit: 10, ActionTime: 7},
+		Blind: pokertable.TableBlindState{Level: 1, Ante: 0, Dealer: 0, SB: 10, BB: 20},
+	}
+	rig, err := NewRig(setting, NewRecBackend(), 0)
+	if err != nil {
+		return ""
+	}
+	defer rig.abandon()
+	st.Histories++
+	st.OpenVsMembership++
+	seats := r.Perm(9)
+	parts := map[string]int{}
+	for i := 0; i < n; i++ {
+		rig.te.PlayerReserve(pokertable.JoinPlayer{PlayerID: pid(i + 1), RedeemChips: 1000, Seat: seats[i]})
+		time.Sleep(200 * time.Microsecond)
+		rig.te.PlayerJoin(pid(i + 1))
+		waitFor(100*time.Millisecond, rig.autoJoinQuiet)
+		schedBarrier(3)
+		time.Sleep(400 * time.Microsecond)
+		parts[pid(i+1)] = i
+	}
+	rig.te.StartTableGame()
+	rig.te.SetUpTableGame(0, parts)
+	time.Sleep(300 * time.Microsecond)
+	first, second := n+1, n+2
+	secondLeaves := r.Intn(2) == 0 // the queued call is the first caller's departure, or a further arrival
+	var secondErr error
+	secondDone := make(chan struct{})
+	fired := false
+	rig.mu.Lock()
+	rig.snapHook = func(t *pokertable.Table) string {
+		if fired {
+			return ""
+		}
+		fired = true
+		go func() {
+			defer close(secondDone)
+			if secondLeaves {
+				secondErr = rig.te.PlayersLeave([]string{pid(first)})
+			} else {
+				secondErr = rig.te.PlayerReserve(pokertable.JoinPlayer{PlayerID: pid(second), RedeemChips: 700, Seat: seats[n+1]})
+			}
+		}()
+		time.Sleep(time.Duration(60+r.Intn(120)) * time.Millisecond) // the second call queues on the lock
+		for i := 0; i < n; i++ {
+			rig.te.PlayerSettlementFinish(pid(i + 1))
+		}
+		time.Sleep(time.Duration(200+r.Intn(250)) * time.Millisecond) // the gate fires and the open queues as well
+		return ""
+	}
+	rig.mu.Unlock()
+	firstErr := rig.te.PlayerReserve(pokertable.JoinPlayer{PlayerID: pid(first), RedeemChips: 900, Seat: seats[n]})
+	rig.mu.Lock()
+	rig.snapHook = nil
+	rig.mu.Unlock()
+	select {
+	case <-secondDone:
+	case <-time.After(5 * time.Second):
+		line("cc new h=%d kind=open-vs-membership players=%d", hid, n)
+		line("cc anomaly C16.concurrent-membership-calls-did-not-return")
+		st.Anomalies++
+		line("cc end")
+		return w.String()
+	}
+	opened := waitFor(3*time.Second, func() bool { return rig.live().State.GameCount == 1 })
+	time.Sleep(5 * time.Millisecond)
+	line("cc new h=%d kind=open-vs-membership players=%d", hid, n)
+	what := "reserve"
+	if secondLeaves {
+		what = "leave"
+	}
+	line("cc openvs first=%s second=%s:%s opened=%s", tbErrName(firstErr), what, strings.ReplaceAll(tbErrName(secondErr), " ", "_"), b01(opened))
+	if opened && firstErr == nil {
+		t := safeClone(rig.live())
+		listed := func(id int) int {
+			c := 0
+			for _, p := range t.State.PlayerStates {
+				if p.PlayerID == pid(id) {
+					c++
+				}
+			}
+			return c
+		}
+		bad := []string{}
+		if secondErr == nil {
+			if secondLeaves && listed(first) != 0 {
+				bad = append(bad, "C16.successful-call-left-no-trace")
+			}
+			if !secondLeaves && listed(second) != 1 {
+				bad = append(bad, "C16.successful-call-left-no-trace")
+			}
+			if !secondLeaves && listed(first) != 1 {
+				bad = append(bad, "C16.successful-call-left-no-trace")
+			}
+		}
+		// table and seat manager agree on who sits where
+		smSeats := rig.hk.SeatManager().Seats()
+		for seat := 0; seat < 9; seat++ {
+			onTable := ""
+			if idx := t.State.SeatMap[seat]; idx >= 0 && idx < len(t.State.PlayerStates) {
+				onTable = t.State.PlayerStates[idx].PlayerID
+			}
+			inSM := ""
+			if sp := smSeats[seat]; sp != nil {
+				inSM = sp.ID
+			}
+			if onTable != inSM {
+				bad = append(bad, "C16.table-and-seat-manager-disagree-after-concurrent-calls")
+				break
+			}
+		}
+		for _, b := range bad {
+			line("cc anomaly %s table=%s sm=%s", b, strings.ReplaceAll(tableObs(t), " ", "/"), smObsOf(rig.hk.SeatManager(), 9))
+			st.Anomalies++
+		}
+	}
+	line("cc end")
+	return w.String()
+}
+
 // smBurst: concurrent seat-manager mutators on a bare seat manager
 func smBurst(r *rand.Rand, st *ccStats, hid int) string {
 	var w strings.Builder
@@ -918,6 +1052,7 @@ func runConcChild(args []string) {
 	na := fs.Int("actions", 4, "action bursts")
 	ns := fs.Int("sm", 20, "seat-manager bursts")
 	nt := fs.Int("topups", 0, "top-up bursts racing an open")
+	nov := fs.Int("openvs", 0, "membership calls queued on the engine lock around an open")
 	base := fs.Int("base", 0, "first history id")
 	out := fs.String("out", "cc.trace", "trace file")
 	statsFile := fs.String("stats", "", "stats json")
@@ -955,6 +1090,10 @@ func runConcChild(args []string) {
 		hid++
 		write(topupBurst(r, st, hid))
 	}
+	for i := 0; i < *nov; i++ {
+		hid++
+		write(openVsMembership(r, st, hid))
+	}
 	if *statsFile != "" {
 		b, _ := json.Marshal(st)
 		os.WriteFile(*statsFile, b, 0644)
@@ -968,6 +1107,7 @@ func runConc(args []string) {
 	na := fs.Int("actions", 12, "action bursts")
 	ns := fs.Int("sm", 200, "seat-manager bursts")
 	nt := fs.Int("topups", 0, "top-up bursts racing an open")
+	nov := fs.Int("openvs", 0, "membership calls queued on the engine lock around an open")
 	out := fs.String("out", "cc.trace", "trace file")
 	statsFile := fs.String("stats", "", "stats json")
 	workers := fs.Int("workers", 6, "child processes")
@@ -989,7 +1129,7 @@ func runConc(args []string) {
 			tmp := fmt.Sprintf("%s.%d", *out, wk)
 			stf := tmp + ".json"
 			cmd := exec.Command(os.Args[0], "concchild", "-seed", strconv.FormatInt(*seed*100+int64(wk), 10), "-n", strconv.Itoa((*n+*workers-1) / *workers),
-				"-actions", strconv.Itoa((*na+*workers-1) / *workers), "-sm", strconv.Itoa((*ns+*workers-1) / *workers), "-topups", strconv.Itoa((*nt+*workers-1) / *workers), "-base", strconv.Itoa(wk*100000), "-out", tmp, "-stats", stf)
+				"-actions", strconv.Itoa((*na+*workers-1) / *workers), "-sm", strconv.Itoa((*ns+*workers-1) / *workers), "-topups", strconv.Itoa((*nt+*workers-1) / *workers), "-openvs", strconv.Itoa((*nov+*workers-1) / *workers), "-base", strconv.Itoa(wk*100000), "-out", tmp, "-stats", stf)
 			var errb strings.Builder
 			cmd.Stderr = &errb
 			cmd.Env = append(os.Environ(), "GOMEMLIMIT=2GiB")
@@ -1020,6 +1160,7 @@ func runConc(args []string) {
 					st.Anomalies += sub.Anomalies
 					st.ByLeaves += sub.ByLeaves
 					st.TopupBursts += sub.TopupBursts
+					st.OpenVsMembership += sub.OpenVsMembership
 					st.Histories += sub.Histories
 					for k, v := range sub.ErrKinds {
 						st.ErrKinds[k] += v
